@@ -66,7 +66,7 @@ Definition check_sign (c : sign_case) : bool :=
 Definition hstep := (N * op * out * store)%type.
 
 Definition cerr_code (e : cerr) : N :=
-  match e with EOneActive => 1 | EMissingID => 2 | EConfigCAS => 3 | EInvalidOp => 4 end.
+  match e with EOneActive => 1 | EMissingID => 2 | EConfigCAS => 3 | EInvalidOp => 4 | EActiveOverwritten => 5 end.
 
 Definition out_eqb (a b : out) : bool :=
   match a, b with
